@@ -23,7 +23,7 @@ PROPS = {
     },
 }
 
-_PARSE_NOTE = "assumed: vstd specs (Vec, Seq, Option, IteratorSpec prophecy model); dependency stubs DecodedChar/Span/Meta/SmallVec/SmallString/NumberBuf::new_unchecked (contracts read off their sources; DecodedChar and Span discharged by Kani); Object::new/push (contract proved in unit object); char::to_digit / char::from_u32 (std contracts, discharged by Kani) / char ordering; Option::transpose; derived Default of CodeMap; usize is 64-bit; total input byte length fits usize. R12: in parse_str / parse_str_with / parse_utf8 / parse_utf8_with / parse_infallible / parse_infallible_with / parse_infallible_utf8 / parse_utf8_infallible_with the adapter expressions `content.chars().map(Ok)`, `chars.map(|c| c.map(DecodedChar::from_utf8))`, `chars.map(Ok)` and `chars.map(DecodedChar::from_utf8)` (closures / function items over iterators, outside Verus) are replaced by assumed stubs that yield the same characters with their UTF-8 lengths; with that, these eight entry points are proved to be `doc` on the text's characters. NOT proved: termination of the main loop of Value::parse_in (vstd's iterator measure is unconstrained after end of input; bounded stand-in), parse_slice* (UTF-8 validation + chain) and FromStr (bounded stand-in compares every entry point with parse_str_with under every option record)."
+_PARSE_NOTE = "assumed: vstd specs (Vec, Seq, Option, IteratorSpec prophecy model); dependency stubs DecodedChar/Span/Meta/SmallVec/SmallString/NumberBuf::new_unchecked (contracts read off their sources; DecodedChar and Span discharged by Kani); Object::new/push (contract proved in unit object); char::to_digit / char::from_u32 (std contracts, discharged by Kani) / char ordering; Option::transpose; derived Default of CodeMap; usize is 64-bit; total input byte length fits usize. R12: in parse_str / parse_str_with / parse_utf8 / parse_utf8_with / parse_infallible / parse_infallible_with / parse_infallible_utf8 / parse_utf8_infallible_with the adapter expressions `content.chars().map(Ok)`, `chars.map(|c| c.map(DecodedChar::from_utf8))`, `chars.map(Ok)` and `chars.map(DecodedChar::from_utf8)` (closures / function items over iterators, outside Verus) are replaced by assumed stubs that yield the same characters with their UTF-8 lengths; with that, these eight entry points are proved to be `doc` on the text's characters. NOT proved: termination of the main loop of Value::parse_in (vstd's iterator measure is unconstrained after end of input; bounded stand-in), parse_slice* (UTF-8 validation + chain; bounded stand-in compares every entry point with parse_str_with under every option record). `impl FromStr for Value` is verified as an inherent method (R10)."
 _DOC = " End to end: Value::parse_in is proved (explicit-stack machine vs the recursive-descent specification `doc` = RFC 8259 `ws value ws`, by the inductive lemmas lemma_run_array / lemma_run_object) to return exactly the denoted value, fragment index and code map, or the specified error, for every input stream and option record; Value::parse / parse_with / parse_str / parse_str_with / parse_utf8 / parse_utf8_with are proved to be `doc` on the whole input from byte 0 with an empty code map."
 for _pid, _title, _text in [
     ("C01", "Strict acceptance", "Unbounded proof that every lexical/structural fragment parser accepts exactly the RFC 8259 production it implements (literals, number automaton, string grammar, begin/end/separator fragments), for every input stream and every option record." + _DOC),
@@ -106,7 +106,7 @@ PROPS["C10"] = {"units": ["object"], "kani": [], "replay": ["bounded"], "title":
 _V = "contract-based deductive verification (Verus) of functions extracted mechanically from /repo on every run"
 _B = "; bounded stand-in (replay crate vs an independent reference, labelled bounded) for "
 for _pid, _t in {
-    "C01": _V + ": every parser function against RFC 8259 specification functions, Value::parse_in == doc, ten of the twelve entry points == doc on the whole input" + _B + "the byte-slice entry points (parse_slice*), FromStr and termination of the main loop",
+    "C01": _V + ": every parser function against RFC 8259 specification functions, Value::parse_in == doc, ten of the twelve entry points and FromStr == doc on the whole input" + _B + "the byte-slice entry points (parse_slice*) and termination of the main loop",
     "C02": _V + ": value clauses of the parser contracts, Indexes and Object queries == linear scan" + _B + "the byte-slice entry point",
     "C03": _V + ": no panic / overflow / bounds / termination side obligations of every parser function" + _B + "termination of the main loop and stack use (deep documents in child processes with a 256 KiB stack)",
     "C04": _V + " and pure lemmas: printer under any option record == text of the padded value (whitespace only where RFC 8259 allows it); doc(any such text) == the value; parse_str == doc" + _B + "to_string end to end (std blanket impl) over the option records of the quantifier",
